@@ -138,6 +138,8 @@ def make_md(sc: Dict[str, Any], prefix: str):
         "xyz": cad.get("xyz", 0),
         "h5": {k: cad.get(k, 0) for k in ("data", "coordinates", "velocities", "forces")},
     }
+    if cad.get("tdm", 0):
+        out["h5"]["transition_density_matrices"] = int(cad["tdm"])
     mkw = {}
     if sc.get("charges") is not None:
         mkw["charges"] = torch.as_tensor(sc["charges"], dtype=torch.float64)
